@@ -721,7 +721,9 @@ def __and__(self, other):
             len_a = len(a_coord) if isinstance(a_coord, tuple) else 1
             len_b = len(b_coord) if isinstance(b_coord, tuple) else 1
 
-            if len_a == len_b:
+            # An empty operand has no coordinate to take an arity from (and
+            # nothing to intersect with): do not re-project the other side
+            if len_a == len_b or a_coord is None or b_coord is None:
                 def succ_next(a, a_coord, a_payload, b, b_coord, b_payload):
                     return *_get_next(a), *_get_next(b)
 
